@@ -702,7 +702,8 @@ pub fn encode(book: &MBook, ch: &XlsxChoices, rng: &mut Rng) -> Encoded {
                         table_no += 1;
                         let tpart = format!("xl/tables/table{}.xml", table_no);
                         rx.push_str(&format!("<Relationship Id=\"{}\" Type=\"{}/table\" Target=\"../tables/table{}.xml\"/>", rid, NS_REL, table_no));
-                        parts.push(Part::new(&tpart, table_xml(&sh.tables[ti], table_no).into_bytes()));
+                        // part names are case-insensitive: the table part may differ in case from the rels Target
+                        parts.push(Part::new(&case(&tpart, ch.name_case), table_xml(&sh.tables[ti], table_no).into_bytes()));
                         content_types.push_str(&format!("<Override PartName=\"/{}\" ContentType=\"application/vnd.openxmlformats-officedocument.spreadsheetml.table+xml\"/>", tpart));
                     }
                     rx.push_str("</Relationships>");
